@@ -398,7 +398,12 @@ def run_case(arg):
             sess2 = None
             try:
                 onnx.checker.check_model(m3)
-                core.ort_session(m3)  # the annotated original must itself be loadable
+                core.ort_session(m3)  # the annotated original must itself be loadable, else the form is not used
+            except Exception as e:
+                out["annotated_rejected"] = str(e)[-200:]
+                del out["annotated"]
+                return out
+            try:
                 opt2 = onnxscript.optimizer.optimize(m3)
                 out["opt2_ops"] = [n.op_type for n in opt2.graph.node]
                 out["opt2_materialized"] = materialized_shapes(opt2)
@@ -479,28 +484,52 @@ def materialized_shapes(model):
 _UNESC = re.compile(r"\\(.)")
 
 
-def _tlc_job(job):
+def _tlc_child(job, conn):
     label, cfg, kw = job
     try:
-        return label, cfg, core.run_tlc("SymShape", cfg, **kw)
+        res = core.run_tlc("SymShape", cfg, **kw)
+        res.dump = None
+        res.printed = []
+        conn.send((label, cfg, res))
     except core.MachineryError as e:
-        return label, cfg, e
+        conn.send((label, cfg, str(e)))
+    except BaseException as e:  # noqa: BLE001
+        conn.send((label, cfg, f"{type(e).__name__}: {e}"))
+    finally:
+        conn.close()
 
 
-def run_tlc_jobs(ctx, jobs):
-    """run the TLC jobs side by side (each is its own JVM); returns {label: TLCResult}"""
-    from concurrent.futures import ThreadPoolExecutor
+def tlc_stream(jobs, maxpar):
+    """run the TLC jobs (each its own JVM) in forked helper processes, at most `maxpar` at a time, and yield
+    (label, cfg, TLCResult) as they finish - no threads, so that the replay pools can fork safely meanwhile"""
+    import multiprocessing as mp
+    from multiprocessing.connection import wait
 
-    core.scratch()
-    with ThreadPoolExecutor(max_workers=min(len(jobs), 7)) as ex:   # bounded: every job is a JVM
-        done = list(ex.map(_tlc_job, jobs))
-    out = {}
-    for label, cfg, res in done:
-        if isinstance(res, Exception):
-            raise res
-        ctx.tlc(res, label)
-        out[label] = res
-    return out
+    ctx = mp.get_context("fork")
+    pending = list(jobs)
+    running = {}
+    try:
+        while pending or running:
+            while pending and len(running) < maxpar:
+                job = pending.pop(0)
+                a, b = ctx.Pipe(False)
+                p = ctx.Process(target=_tlc_child, args=(job, b), daemon=True)
+                p.start()
+                b.close()
+                running[a] = (p, job)
+            for conn in wait(list(running)):
+                p, job = running.pop(conn)
+                try:
+                    msg = conn.recv()
+                except EOFError:
+                    msg = (job[0], job[1], "TLC helper process died")
+                p.join()
+                if isinstance(msg[2], str):
+                    raise core.MachineryError(f"{msg[1]}: {msg[2]}")
+                yield msg
+    finally:
+        for conn, (p, _) in running.items():
+            p.kill()
 
 
 def cases_of(res, cfg):
@@ -543,8 +572,28 @@ WITNESSES = {
 }
 
 
+class Tally:
+    def __init__(self):
+        self.nontriv = set()
+        self.mism = 0
+        self.absm = 0
+        self.traces_ok = 0
+        self.discarded = 0
+        self.dev_pred = 0
+        self.models = 0
+        self.aborting = 0
+        self.lines = []      # (sort key, text) of SPEC-MISMATCH lines
+        self.reports = []    # (sort key, case blob, what, finding)
+        self.samples = []
+
+
 def run(ctx: core.Ctx):
     import time
+    import onnx  # noqa: F401  (imported before the worker pools fork so that the workers do not each pay for it)
+    import onnx_ir  # noqa: F401
+    import onnxruntime  # noqa: F401
+
+    import onnxscript.optimizer  # noqa: F401
 
     q = ctx.quick
     chain = "SymShape_chain3.cfg" if q else "SymShape_chain3t.cfg"
@@ -556,180 +605,203 @@ def run(ctx: core.Ctx):
         cfg = "SymShape_sim.cfg" if j % 2 == 0 else "SymShape_sim2.cfg"
         sd = ctx.seed * 100 + j + 1
         jobs.append((f"{cfg} -simulate num={num} seed={sd}", cfg, dict(timeout=3000, workers=1, simulate=f"num={num}", depth=60, seed=sd, heap="2g")))
+    core.scratch()
     t0 = time.time()
-    results = run_tlc_jobs(ctx, jobs)
-    ctx.set("tlc_phase_s", round(time.time() - t0, 1))
-    vac = results[jobs[0][0]]
-    if vac.ok or vac.violated != "Sound":
-        raise core.MachineryError(f"vacuity: invariant Sound did not fail with deviations enabled ({vac.violated}): {vac.out[-800:]}")
-    cases = {}
+    tally = Tally()
+    seen = set()
+    witnessed = set()
     n_exh = 0
-    for label, cfg, _ in jobs[1:]:
-        cs = cases_of(results[label], cfg)
+    tlc_results = {}
+    # the models of a finished TLC job are replayed while the other jobs still run
+    for label, cfg, res in tlc_stream(jobs, 7):
+        tlc_results[label] = res
+        if cfg == "SymShape_vacuity.cfg":
+            if res.ok or res.violated != "Sound":
+                raise core.MachineryError(f"vacuity: invariant Sound did not fail with deviations enabled ({res.violated}): {res.out[-800:]}")
+            continue
+        cs = cases_of(res, cfg)
+        res.out = ""
         if cfg == "SymShape_design.cfg":
             continue  # pure design run (Deviations = {}): only its invariant matters
+        new = []
         for c in cs:
-            cases.setdefault(case_key(c), c)
+            k = case_key(c)
+            if k not in seen:
+                seen.add(k)
+                new.append(c)
+                for what, pred in WITNESSES.items():
+                    if what not in witnessed and pred(c):
+                        witnessed.add(what)
         if "simulate" not in label:
-            n_exh = len(cases)
-    allcases = list(cases.values())
-    for what, pred in WITNESSES.items():
-        if not any(pred(c) for c in allcases):
+            n_exh += len(new)
+        replay_batch(ctx, tally, new)
+    for label, _, _ in jobs:   # evidence in a fixed order
+        ctx.tlc(tlc_results[label], label)
+    for what in WITNESSES:
+        if what not in witnessed:
             raise core.MachineryError(f"vacuity: TLC reached no model with {what}")
-    ctx.set("spec_cases", len(allcases))
+    ctx.set("spec_cases", len(seen))
     ctx.set("spec_cases_exhaustive", n_exh)
-    ctx.set("parse_phase_s", round(time.time() - t0 - ctx.coverage["tlc_phase_s"], 1))
-    t1 = time.time()
-    judge(ctx, allcases)
-    ctx.set("replay_phase_s", round(time.time() - t1, 1))
+    finish_tally(ctx, tally)
+    ctx.set("tlc_and_replay_s", round(time.time() - t0, 1))
     ctx.set("exhaustive", False)
     ctx.assumptions += [
         "ONNX Runtime 1.30 with graph optimizations disabled is the meaning of both models; bindings at which it rejects the ORIGINAL model are discarded, not judged",
         "free dims are bound to {0,1,2,3,7}; input contents are small integers stored as float32 so equality is exact",
         "data tensors are abstracted to their shape inside the spec (no op of the menu changes contents except by a shape-preserving map); the verdict itself compares real tensors",
         "Reshape with allowzero=1 whose runtime target holds both -1 and 0, and Concat of empty operands with mismatching other dims, are left open by ONNX (ORT is lenient and returns uninitialised memory): the spec marks them UNSPEC and those bindings are not judged",
-        "exhaustive part: all models of <= 2 nodes over the reduced menus and all 3-node chains over two input declarations; longer models (<= 6 nodes, full menus) are a seeded TLC simulation sample",
+        "exhaustive part: all models of <= 2 nodes over the reduced menus and all 3-node chains over the chain input menu; longer models (<= 6 nodes, full menus) are a seeded TLC simulation sample",
+        "the annotated form (graph outputs declared with the shapes observed at the judged bindings) is run for models whose outputs include a data Reshape/Expand/Slice/Concat (quick: half of them)",
     ]
 
 
-def wants_annotation(ctx, i, case):
+def _h(case):
+    return zlib.crc32(case_key(case).encode())
+
+
+def wants_annotation(ctx, case):
     """the annotated form is run for models whose outputs include a data Reshape / Expand / Slice / Concat
     (quick: every second such model)"""
     ni = len(case["ins"])
     hit = any(case["nodes"][v - ni - 1]["op"] in ("Reshape", "Expand", "Slice", "Concat") and case["meta"][v - 1]["k"] == "f" for v in case["outs"])
-    return hit and (not ctx.quick or (i + ctx.seed) % 2 == 0)
+    return hit and (not ctx.quick or (_h(case) + ctx.seed) % 2 == 0)
 
 
 def judge(ctx, allcases):
-    items = [(i, c, ctx.seed, (i + ctx.seed) % 3, wants_annotation(ctx, i, c)) for i, c in enumerate(allcases)]
-    import time
+    """replay + assess a list of cases in one go (used by experiments)"""
+    t = Tally()
+    replay_batch(ctx, t, allcases)
+    finish_tally(ctx, t)
 
-    import onnx  # noqa: F401  (imported before the fork so that the 16 workers do not each pay for it)
-    import onnx_ir  # noqa: F401
-    import onnxruntime  # noqa: F401
 
-    import onnxscript.optimizer  # noqa: F401
+def finish_tally(ctx, t):
+    for _, line in sorted(t.lines)[:20]:
+        print(line)
+    for _, blob, what, finding in sorted(t.reports, key=lambda x: x[0]):
+        ctx.report(blob, what, finding=finding)
+    for _, smp in sorted(t.samples, key=lambda x: x[0])[:6]:
+        ctx.sample(smp)
+    ctx.set("distinct_nontrivial", len(t.nontriv))
+    ctx.set("rule", "models = 'done' states of SymShape.tla (exhaustive cfgs + seeded simulation), each optimized ONCE (twice when the "
+                    "annotated form is also run) and run at every binding of its free dims to {0,1,2,3,7}; evaluations = (model, binding) "
+                    "pairs run on ORT; non-trivial = distinct models accepted at >= 1 binding in which the folder derived a symbolic value "
+                    "or replaced a node")
+    ctx.set("traces_validated_against_impl", t.traces_ok)
+    ctx.set("models_replayed", t.models)
+    ctx.set("models_never_accepted", t.discarded)
+    ctx.set("models_aborting_onnxruntime", t.aborting)
+    ctx.set("model_impl_mismatches", t.mism + t.absm)
+    ctx.set("abstract_state_mismatches", t.absm)
+    ctx.set("departures_predicted_by_deviation", t.dev_pred)
 
-    t0 = time.time()
+
+def replay_batch(ctx, t, cases):
+    if not cases:
+        return
+    items = [(i, c, ctx.seed, (_h(c) + ctx.seed) % 3, wants_annotation(ctx, c)) for i, c in enumerate(cases)]
     results = core.pmap_safe(run_case, items, timeout=120)
-    ctx.set("pmap_s", round(time.time() - t0, 1))
     # a worker that died: ONNX Runtime aborted the process (it does so on some invalid models, e.g. a Slice
     # of an Expand with a negative target dim).  Re-run the original alone: if that dies too the model is
     # discarded, otherwise it is the OPTIMIZED model that kills the runtime although the original runs.
     died = [k for k, r in enumerate(results) if isinstance(r, core.MachineryErrorResult) and "died" in r.msg]
-    crash_optimized = set()
     if died:
         again = core.pmap_safe(run_case, [items[k] + (True,) for k in died], timeout=120, workers=min(4, len(died)))
         for k, r2 in zip(died, again):
             if isinstance(r2, dict):
-                crash_optimized.add(k)
                 r2["opt_raised"] = "the process running the optimized model was aborted by ONNX Runtime"
                 r2["runs"] = [dict(x, opt="NOMODEL") if x["o"] is not None else x for x in r2["runs"]]
                 results[k] = r2
             else:
                 results[k] = {"ort_abort": True}
-    ctx.set("models_aborting_onnxruntime", len(died) - len(crash_optimized))
-    nontriv = set()
-    mism = 0
-    absm = 0
-    traces_ok = 0
-    discarded_models = 0
-    dev_pred = 0
+                t.aborting += 1
     for (i, case, _, _, _), r in zip(items, results):
-        txt = text_of(case)
-        if r is core.HANG or isinstance(r, core.MachineryErrorResult):
-            raise core.MachineryError(f"worker failed on {txt}: {r}")
-        if "machinery" in r:
-            raise core.MachineryError(f"{r['machinery']} for {txt}")
-        if "ort_abort" in r:
-            discarded_models += 1
-            continue
-        if "orig_load" in r:
-            discarded_models += 1
-            if any(x["ok"] for x in case["rep"]):
-                mism += 1
-                print(f"SPEC-MISMATCH C09 load: model accepts some binding, ORT cannot load the original: {txt}: {r['orig_load']}")
-            continue
-        # ---- the real abstract state against the implementation model
-        if "fold_raised" in r:
-            absm += 1
-            print(f"SPEC-MISMATCH C09 fold_constants raised on {txt}: {r['fold_raised']}")
+        assess(ctx, t, case, r)
+
+
+def assess(ctx, t, case, r):
+    txt = text_of(case)
+    t.models += 1
+    if r is core.HANG or isinstance(r, core.MachineryErrorResult):
+        raise core.MachineryError(f"worker failed on {txt}: {r}")
+    if "machinery" in r:
+        raise core.MachineryError(f"{r['machinery']} for {txt}")
+    if "ort_abort" in r:
+        t.discarded += 1
+        return
+    if "orig_load" in r:
+        t.discarded += 1
+        if any(x["ok"] for x in case["rep"]):
+            t.mism += 1
+            t.lines.append((txt, f"SPEC-MISMATCH C09 load: model accepts some binding, ORT cannot load the original: {txt}: {r['orig_load']}"))
+        return
+    # ---- the real abstract state against the implementation model
+    if "fold_raised" in r:
+        t.absm += 1
+        t.lines.append((txt, f"SPEC-MISMATCH C09 fold_constants raised on {txt}: {r['fold_raised']}"))
+    else:
+        d = compare_abstract(case, r["abstract"])
+        if d:
+            t.absm += 1
+            t.lines.append((txt, f"SPEC-MISMATCH C09 abstract state: {txt}: " + " | ".join(d[:4])))
         else:
-            d = compare_abstract(case, r["abstract"])
-            if d:
-                absm += 1
-                if absm <= 15:
-                    print(f"SPEC-MISMATCH C09 abstract state: {txt}: " + " | ".join(d[:4]))
+            t.traces_ok += 1
+    simplified = any(x["k"] != "keep" for x in case["dec"]) or any(s["k"] != "none" for s in case["sym"])
+    anyok = False
+    for j, (sp, rr) in enumerate(zip(case["rep"], r["runs"])):
+        ctx.add("evaluations")
+        real_ok = rr["o"] is not None
+        # spec vs ORT on the original
+        if not sp["un"]:
+            if sp["ok"] != real_ok:
+                t.mism += 1
+                t.lines.append((txt, f"SPEC-MISMATCH C09 acceptance: {txt} at {dict(zip(case['free'], sp['b']))}: model ok={sp['ok']} ORT {'ok' if real_ok else rr.get('err')}"))
+            elif real_ok and sp["o"] != rr["o"]:
+                t.mism += 1
+                t.lines.append((txt, f"SPEC-MISMATCH C09 outputs: {txt} at {sp['b']}: model {sp['o']} ORT {rr['o']}"))
+        if not real_ok:
+            ctx.add("bindings_rejected_by_original")
+            continue
+        if sp["un"] or not sp["ok"]:
+            # ORT ran the original although ONNX leaves the case open (it is lenient about empty Concat
+            # operands and returns uninitialised memory): outside the property's domain
+            ctx.add("bindings_outside_onnx_semantics")
+            continue
+        anyok = True
+        bind = {("?" if c > 2000 else SYMS.get(c, c)) + (str(c - 2000) if c > 2000 else ""): v for c, v in zip(case["free"], sp["b"])}
+        for form, k_raised, k_load, k_run in (("", "opt_raised", "opt_load", "opt"), ("with declared output shapes " + str(r.get("annotated")) + " ", "opt2_raised", "opt2_load", "opt2")):
+            if k_run == "opt2" and "opt2" not in rr:
+                continue
+            ctx.add("judged_runs")
+            finding = None
+            if k_raised in r:
+                what = f"optimize() raised {r[k_raised]}"
+            elif k_load in r:
+                what = f"ORT cannot load the optimized model: {r[k_load]}"
+            elif rr[k_run] == "SAME":
+                if k_run == "opt" and not sp["same"]:
+                    t.mism += 1
+                    t.lines.append((txt, f"SPEC-MISMATCH C09 predicted departure did not happen: {txt} at {sp['b']}"))
+                continue
             else:
-                traces_ok += 1
-        simplified = any(x["k"] != "keep" for x in case["dec"]) or any(s["k"] != "none" for s in case["sym"])
-        anyok = False
-        for j, (sp, rr) in enumerate(zip(case["rep"], r["runs"])):
-            ctx.add("evaluations")
-            real_ok = rr["o"] is not None
-            # spec vs ORT on the original
-            if not sp["un"]:
-                if sp["ok"] != real_ok:
-                    mism += 1
-                    if mism <= 15:
-                        print(f"SPEC-MISMATCH C09 acceptance: {txt} at {dict(zip(case['free'], sp['b']))}: model ok={sp['ok']} ORT {'ok' if real_ok else rr.get('err')}")
-                elif real_ok and sp["o"] != rr["o"]:
-                    mism += 1
-                    if mism <= 15:
-                        print(f"SPEC-MISMATCH C09 outputs: {txt} at {sp['b']}: model {sp['o']} ORT {rr['o']}")
-            if not real_ok:
-                ctx.add("bindings_rejected_by_original")
-                continue
-            if sp["un"] or not sp["ok"]:
-                # ORT ran the original although ONNX leaves the case open (it is lenient about empty Concat
-                # operands and returns uninitialised memory): outside the property's domain
-                ctx.add("bindings_outside_onnx_semantics")
-                continue
-            anyok = True
-            bind = {("?" if c > 2000 else SYMS.get(c, c)) + (str(c - 2000) if c > 2000 else ""): v for c, v in zip(case["free"], sp["b"])}
-            for form, k_raised, k_load, k_run in (("", "opt_raised", "opt_load", "opt"), ("with declared output shapes " + str(r.get("annotated")) + " ", "opt2_raised", "opt2_load", "opt2")):
-                if k_run == "opt2" and "opt2" not in rr:
-                    continue
-                ctx.add("judged_runs")
-                finding = None
-                if k_raised in r:
-                    what = f"optimize() raised {r[k_raised]}"
-                elif k_load in r:
-                    what = f"ORT cannot load the optimized model: {r[k_load]}"
-                elif rr[k_run] == "SAME":
-                    if k_run == "opt" and not sp["same"]:
-                        mism += 1
-                        if mism <= 15:
-                            print(f"SPEC-MISMATCH C09 predicted departure did not happen: {txt} at {sp['b']}")
-                    continue
-                else:
-                    what = rr[k_run]
-                if not sp["same"] and case["devs"]:
-                    finding = sorted(case["devs"])[0]
-                    dev_pred += 1
-                elif k_run == "opt2" and any(-1 in sh and 0 in sh for sh in r.get("opt2_materialized", [])) and not rr[k_run].startswith("DIFF"):
-                    # guard of the known deviation of MaterializeReshapeShape: a constant shape holding -1 and 0 next to allowzero=1
-                    finding = "materialize_allowzero"
-                ctx.report({"model": txt, "ins": case["ins"], "nodes": case["nodes"], "binding": bind, "free": case["free"], "b": sp["b"],
-                            "variant": r["variant"], "form": k_run, "declared_outputs": r.get("annotated") if k_run == "opt2" else None,
-                            "opt_ops": r.get("opt_ops" if k_run == "opt" else "opt2_ops"), "case": case_min(case)},
-                           f"{txt} {form}at {bind}: the original model runs, the optimized one does not agree: {what}", finding=finding)
-        if not anyok:
-            discarded_models += 1
-        elif simplified:
-            nontriv.add(case_key(case))
-        ctx.sample({"model": txt, "symbolic_value_map": spec_view(case)["sym"], "decisions": [d["k"] for d in case["dec"]],
-                    "bindings": len(case["rep"]), "accepted": sum(1 for x in r["runs"] if x["o"] is not None)})
-    ctx.set("distinct_nontrivial", len(nontriv))
-    ctx.set("rule", "models = 'done' states of SymShape.tla (exhaustive cfg + seeded simulation), each optimized ONCE and run at every "
-                    "binding of its free dims to {0,1,2,3,7}; evaluations = (model, binding) pairs run on ORT; non-trivial = distinct models "
-                    "accepted at >= 1 binding in which the folder derived a symbolic value or replaced a node")
-    ctx.set("traces_validated_against_impl", traces_ok)
-    ctx.set("models_replayed", len(allcases))
-    ctx.set("models_never_accepted", discarded_models)
-    ctx.set("model_impl_mismatches", mism + absm)
-    ctx.set("abstract_state_mismatches", absm)
-    ctx.set("departures_predicted_by_deviation", dev_pred)
+                what = rr[k_run]
+            if not sp["same"] and case["devs"]:
+                finding = sorted(case["devs"])[0]
+                t.dev_pred += 1
+            elif k_run == "opt2" and any(-1 in sh and 0 in sh for sh in r.get("opt2_materialized", [])) and not rr[k_run].startswith("DIFF"):
+                # guard of the known deviation of MaterializeReshapeShape: a constant shape holding -1 and 0 next to allowzero=1
+                finding = "materialize_allowzero"
+            t.reports.append(((txt, k_run, sp["b"]),
+                              {"model": txt, "ins": case["ins"], "nodes": case["nodes"], "binding": bind, "free": case["free"], "b": sp["b"],
+                               "variant": r["variant"], "form": k_run, "declared_outputs": r.get("annotated") if k_run == "opt2" else None,
+                               "opt_ops": r.get("opt_ops" if k_run == "opt" else "opt2_ops"), "case": case_min(case)},
+                              f"{txt} {form}at {bind}: the original model runs, the optimized one does not agree: {what}", finding))
+    if not anyok:
+        t.discarded += 1
+    elif simplified:
+        t.nontriv.add(case_key(case))
+        if len(t.samples) < 200:
+            t.samples.append((_h(case), {"model": txt, "symbolic_value_map": spec_view(case)["sym"], "decisions": [d["k"] for d in case["dec"]],
+                                         "bindings": len(case["rep"]), "accepted": sum(1 for x in r["runs"] if x["o"] is not None)}))
 
 
 def case_min(case):
